@@ -20,11 +20,13 @@ RULE = (
     "statement whose parameters are in declaration order; a wrong or extra keyword and a mixed positional/keyword "
     "call are rejected with JaqalError.  idle: for random gate sets (with prepare/measure; names drawn from the "
     "pool and, with probability 1/3 each, extra active gates whose own names look like idle or stretched names: "
-    "I_x, I_I_x, x_stretched) every active gate gets an idle twin with the same parameter list and no used qubits, and inserting idle gates at "
+    "I_x, I_I_x, x_stretched, and busy gates - BusyGateDefinition - that are not prepare/measure) every active gate gets an idle twin with the same parameter list and no used qubits, and inserting idle gates at "
     "random places of an executable program leaves every subcircuit's state vector unchanged.  stretched: for "
     "gate sets of 2-6 gates (different arities; idle gates included) every stretched gate has the parent's "
     "parameters plus one trailing FLOAT `stretch` and, for drawn classical arguments and stretch factors, exactly "
-    "the parent's ideal unitary.  Non-trivial = a mixed-kind signature with a boundary value (integral float / "
+    "the parent's ideal unitary; with update=True (one case in three) the result is the caller's dictionary with "
+    "every stretched gate under its own name and all other entries untouched, with update=False the caller's "
+    "dictionary is unchanged.  Non-trivial = a mixed-kind signature with a boundary value (integral float / "
     "integral FLOAT Constant to INT, non-finite float), or a stretched set with >= 2 gates of different arity."
 )
 ASSUMPTIONS = [
@@ -233,6 +235,14 @@ def idle_case(case):
             kinds = [ech.pick(["q", "f", "i"]) for _ in range(ech.int(0, 3))]
             m = np.eye(2 ** kinds.count("q"), dtype=complex)
             base[extra] = GateDefinition(extra, [Parameter(f"a{i}", gates.PTYPE[k]) for i, k in enumerate(kinds)], ideal_unitary=(lambda *a, m=m: m))
+    # ... and so are gates that cannot run beside anything (a global rotation, a wait): "every
+    # active gate other than prepare/measure" has its idle twin
+    from jaqalpaq.core.gatedef import BusyGateDefinition
+
+    for extra in ("GlobalR", "wait_all", "prepare_some"):
+        if ech.int(0, 2) == 0:
+            kinds = [ech.pick(["f", "i"]) for _ in range(ech.int(0, 2))]
+            base[extra] = BusyGateDefinition(extra, [Parameter(f"a{i}", gates.PTYPE[k]) for i, k in enumerate(kinds)])
     st_, withidle = guard(add_idle_gates, base, what="add_idle_gates")
     if st_ == "err":
         raise Violation("add-idle-gates-raised", str(withidle))
@@ -356,9 +366,23 @@ def stretch_case(case):
     keyed = dict(base)
     if case.get("odd_keys"):
         keyed = {("k%d_" % i) + k.lower(): v for i, (k, v) in enumerate(base.items())}
-    st_, sg = guard(stretched_gates, keyed, suffix=suffix_arg, what="stretched_gates") if suffix_arg is not None or case["gate_seed"] % 2 else guard(stretched_gates, keyed, what="stretched_gates")
+    update = bool(case.get("update"))
+    ukw = {"update": True} if update else {}
+    before = dict(keyed)
+    st_, sg = guard(stretched_gates, keyed, suffix=suffix_arg, what="stretched_gates", **ukw) if suffix_arg is not None or case["gate_seed"] % 2 else guard(stretched_gates, keyed, what="stretched_gates", **ukw)
     if st_ == "err":
         raise Violation("stretched-gates-raised", f"{sg}\nnames {names}")
+    if update:
+        # documented: "return gates after updating with the new stretched gates" - the caller's
+        # dictionary, every stretched gate under its own name, everything else as it was
+        if sg is not keyed:
+            raise Violation("update-returns-other-dictionary", f"{type(sg).__name__}")
+        derived = {name + suffix for name in base} | {(n_[2:] if isinstance(g_, IdleGateDefinition) else n_) + suffix for n_, g_ in base.items()}
+        for k_, v_ in before.items():
+            if k_ not in derived and sg.get(k_) is not v_:
+                raise Violation("update-lost-entry", f"{k_!r}: {sg.get(k_)!r}")
+    elif keyed != before or list(keyed) != list(before):
+        raise Violation("gates-dictionary-modified", f"update=False, yet {list(before)} became {list(keyed)}")
     arities = set()
     ch = gen.Chooser(case["arg_seed"])
     for name, g in base.items():
@@ -415,7 +439,7 @@ def stretch_case(case):
             if idle_s is None or list(idle_s.used_qubits) != [] or len(list(idle_s.parameters)) != len(want_params) + 1 or not all(a == b for a, b in zip(want_params, idle_s.parameters)):
                 raise Violation("stretched-idle", f"{name}{suffix}: {idle_s} (parent idle gate: {want_params}; gate order {list(base)})")
     nt = len(arities) >= 2 and len(base) >= 2
-    return {"nontrivial": nt, "classes": ["gates:%d" % len(base), "with-idle:%s" % case["with_idle"]], "key": repr((names, suffix, case["with_idle"], case["gate_seed"] % 7)), "sample": {"gates": list(base), "suffix": suffix}}
+    return {"nontrivial": nt, "classes": ["gates:%d" % len(base), "with-idle:%s" % case["with_idle"]] + (["update=True"] if update else []), "key": repr((names, suffix, case["with_idle"], case["gate_seed"] % 7, update)), "sample": {"gates": list(base), "suffix": suffix}}
 
 
 def _stretch_gen(ch):
@@ -429,6 +453,7 @@ def _stretch_gen(ch):
         "arg_seed": ch.int(0, 10**6),
         "call_parents_first": ch.bool(),
         "odd_keys": ch.int(0, 2) == 0,
+        "update": ch.int(0, 2) == 0,
     }
 
 
